@@ -79,7 +79,8 @@ class AtomMap:
                     return 'L2'
             if k == 'attr' and _is_settings_obj(e[1]):
                 return _PY_SETTINGS_ATOM.get(e[2], 'S_' + e[2])
-            if k == 'idx' and e[2][0] == 'num' and e[1][0] == 'call' and (dotted(e[1][1]) or '').endswith('.split_psi'):
+            if k == 'idx' and e[2][0] == 'num' and e[1][0] == 'call' and e[1][1][0] == 'attr' and e[1][1][2] == 'split_psi' \
+                    and 0 <= e[2][1] < 4:
                 return PSI[e[2][1]]
             if k == 'var':
                 return e[1]
